@@ -20,7 +20,7 @@ var (
 	commonPools = map[string][]string{"": {"X", "Y", "A", "decimal"}, "NS": {"Z", "U", "Ctx", "ipaddr"}, "A::B": {"K", "P", "duration"}, "N2": {"M", "V", "Bool2"}}
 	// names the text format cannot declare / reference (JSON leg only)
 	oddCommon = []string{"Set", "String", "Bool", "Record", "Entity", "Long", "Extension", "Boolean"}
-	attrPool  = []string{"a", "b", "k", "name", "if", "in", "true", "has", "like", "is", "then", "else", "__cedar", "type", "entity", "action", "namespace", "appliesTo", "principal", "resource", "context", "tags", "enum", "Set",
+	attrPool  = []string{"a", "A", "b", "B", "k", "K", "name", "Name", "NAME", "if", "IF", "in", "true", "has", "like", "is", "then", "else", "__cedar", "type", "entity", "action", "namespace", "appliesTo", "principal", "resource", "context", "tags", "enum", "Set",
 		"a b", "", "1x", "x-y", "\n", "\t", "\"", "'", "\\", "\u0000", "é", "日本", "\u0080", "\u200b", "\u0301", "__entity", "__extn", "__tag:k", "a.b", "*", "\U0001F600", " ", "\a", "\x7f", "A::B", "@", "//", "/*"}
 	actionPool = []string{"view", "edit", "grp", "all", "if", "in", "__cedar", "a b", "", "\"", "\\", "é", "日本", "\n", "view::x", "Action", "\u0000", "*", "1", "appliesTo", "\U0001F600"}
 	annKeys    = []string{"doc", "a", "id", "if", "in", "__cedar", "type", "true", "_x1"}
